@@ -1,6 +1,7 @@
 import Ogorek.Encoder
 import Ogorek.Opcodes
 import Ogorek.Generated.Facts
+import Ogorek.Lemmas.ScanEnc
 
 /-!
   C12 — Encoder uses only opcodes of the requested protocol and emits one framed pickle.
@@ -14,5 +15,77 @@ theorem C12_reject (ip : IsPrint) (c : ECfg) (g : RefHook) (v : GoVal) (h : ¬(0
 
 /-- The source's `highestProtocol` is the model's 5. -/
 theorem C12_facts : Generated.highestProtocol = 5 := by decide
+
+/-- **C12 (conformance, protocols 1–5).** For EVERY value (any nesting; application structs, unsigned
+    ints, maps and Dicts with any keys included) whose payloads are below the 4 GiB of the 4-byte
+    length forms, and every protocol p in 1..5: if `Encode` returns no error, its output, scanned with
+    the independent opcode table of `Opcodes.lean`, is one framed pickle — it begins with `PROTO p`
+    exactly when p ≥ 2 and contains no other PROTO, every opcode was introduced in a protocol ≤ p,
+    the stack discipline holds at every opcode, and the single STOP at the very end finds exactly one
+    object.  (Protocol 0: the text forms need newline-freeness of float text and of the two codecs'
+    output, which is not proved; decided per run by the same scanner on model and implementation.) -/
+theorem C12_conforms_bin (ip : IsPrint) (c : ECfg) (v : GoVal) (hp1 : 1 ≤ c.proto) (hp5 : c.proto ≤ 5)
+    (hs : sizesOK v = true) (he : (encodeTop ip c none v).err = none) :
+    conforms c.proto.toNat (flat (encodeTop ip c none v)) = .ok () := by
+  have hrange : (0 ≤ c.proto ∧ c.proto ≤ 5) := ⟨by omega, hp5⟩
+  have hdr_err : (if c.proto ≥ 2 then emit [0x80, UInt8.ofNat c.proto.toNat] else Out.nil).err = none := by
+    split <;> rfl
+  have etop : encodeTop ip c none v =
+      (if c.proto ≥ 2 then emit [0x80, UInt8.ofNat c.proto.toNat] else Out.nil) +> enc ip c v +> emit [46] := by
+    simp [encodeTop, hrange]
+  rw [etop] at he ⊢
+  obtain ⟨h12, _⟩ := seq_err_none he
+  obtain ⟨_, hev⟩ := seq_err_none h12
+  obtain ⟨effs, hscan, heff⟩ := scans_val ip c (by omega) v hs hev
+  have hlen := Scans.length_le hscan
+  rw [flat_seq _ _ h12, flat_seq _ _ hdr_err, flat_emit]
+  unfold conforms scan
+  have hstop : ∀ (f : Nat) (names : List String) (maxp : Nat) (firstp : Option Nat) (pcount : Nat),
+      scanLoop (f + 1) [true] names maxp firstp pcount [46] =
+        .ok (⟨("STOP" :: names).reverse, max maxp 0, firstp, pcount, 0⟩, []) := by
+    intro f names maxp firstp pcount
+    rw [scanLoop]
+    rfl
+  by_cases h2 : c.proto ≥ 2
+  · simp only [h2, if_true, flat_emit]
+    have hpb : (UInt8.ofNat c.proto.toNat).toNat = c.proto.toNat := by simp [UInt8.toNat_ofNat']; omega
+    obtain ⟨names', maxp', hrun, hlo, hhi, _⟩ := scanLoop_run c.proto.toNat effs (flat (enc ip c v))
+      ((flat (enc ip c v)).length - effs.length + 2 + 1) [] [true] ["PROTO"] 2 (some c.proto.toNat) 1 [46] hscan (heff [])
+      (fun _ => trivial)
+    have hfuel : ([0x80, UInt8.ofNat c.proto.toNat] ++ flat (enc ip c v) ++ [46]).length + 1 =
+        (((flat (enc ip c v)).length - effs.length + 2 + 1) + effs.length) + 1 := by simp; omega
+    rw [hfuel]
+    have hstep : scanLoop ((((flat (enc ip c v)).length - effs.length + 2 + 1) + effs.length) + 1) [] [] 0 none 0
+        ([0x80, UInt8.ofNat c.proto.toNat] ++ flat (enc ip c v) ++ [46]) =
+        scanLoop (((flat (enc ip c v)).length - effs.length + 2 + 1) + effs.length) [] ["PROTO"] 2 (some c.proto.toNat) 1
+          (flat (enc ip c v) ++ [46]) := by
+      rw [scanLoop]
+      have : scanOp ([0x80, UInt8.ofNat c.proto.toNat] ++ flat (enc ip c v) ++ [46]) =
+          .ok ((⟨0x80, "PROTO", 2, .u1, .nop⟩, c.proto.toNat), flat (enc ip c v) ++ [46]) := by
+        simp [scanOp, show opLookup 0x80 = some ⟨0x80, "PROTO", 2, .u1, .nop⟩ from rfl, skipArg, Rd.map, Rd.bind, readByte, Rd.pure, hpb]
+      rw [this]
+      simp [applyEff]
+    rw [hstep, hrun, hstop]
+    have hm : max maxp' 0 ≤ c.proto.toNat := by
+      have : 2 ≤ c.proto.toNat := by omega
+      omega
+    have hm' : ¬ (max maxp' 0 > c.proto.toNat) := by omega
+    have h2' : (c.proto.toNat ≥ 2) := by omega
+    simp only [h2', decide_true, Bool.true_and, bne_self_eq_false, Bool.false_eq_true, if_false, List.isEmpty_nil, Bool.not_true,
+      show ¬ (c.proto.toNat < 2) by omega, decide_false, Bool.false_and, show ¬ (1 > 1) by omega, hm']
+  · simp only [h2, if_false, flat, Out.nil, List.flatten_nil, List.nil_append]
+    have hscan' : Scans c.proto.toNat (enc ip c v).chunks.flatten effs := hscan
+    obtain ⟨names', maxp', hrun, hlo, hhi, _⟩ := scanLoop_run c.proto.toNat effs (enc ip c v).chunks.flatten
+      ((enc ip c v).chunks.flatten.length - effs.length + 1 + 1) [] [true] [] 0 none 0 [46] hscan' (heff [])
+      (fun _ => trivial)
+    have hlen' : effs.length ≤ (enc ip c v).chunks.flatten.length := hlen
+    have hfuel : ((enc ip c v).chunks.flatten ++ [46]).length + 1 =
+        ((enc ip c v).chunks.flatten.length - effs.length + 1 + 1) + effs.length := by
+      simp only [List.length_append, List.length_cons, List.length_nil]; omega
+    rw [hfuel, hrun, hstop]
+    have hp : c.proto.toNat = 1 := by omega
+    have hm' : ¬ (max maxp' 0 > c.proto.toNat) := by omega
+    simp [hp] at hm' ⊢
+    exact hm'
 
 end Ogorek
